@@ -2,6 +2,7 @@
    decidable specifications, inside Coq (vm_compute). *)
 From Coq Require Import List QArith ZArith Bool Arith Qround Qabs.
 From LV Require Import Model.Domain Model.Decode.
+From LV Require Model.EndpointTail.   (* with_task: _form_domain_with_task_dimension *)
 Import ListNotations.
 Open Scope Q_scope.
 
@@ -74,6 +75,9 @@ Inductive case :=
 | CBox (d : domain) (box : list (Q * Q)) (m : list (nat * nat * list (nat * Z)))
 | CEncode (d : domain) (p : point) (task : option Q) (out : row)
 | CEncodeErr (d : domain) (p : point)
+(* form_one_hot_points_with_tasks on one point with its task cost, then the task domain of form_augmented_domain: its relaxed box, its three
+   rounding functions applied to the encoded row, and the task cost of the rounded row snapped to the options *)
+| CEncodeTask (d : domain) (opts : list Q) (p : point) (c : Q) (out : row) (box : list (Q * Q)) (rounded : row) (snapped : Q)
 | CRound (which : nat) (d : domain) (xs out : list row)
 | CDecode (d : domain) (T : option Q) (xs : list row) (rnds : list (list (list bool))) (perms : list (list nat))
           (draws : list (list draw)) (out : list row)
@@ -99,6 +103,16 @@ Definition check (c : case) : bool :=
             (match decode_det d (encode d p) with Some q => peqb q p | None => false end &&
              in_boxb (one_hot_box d) (encode d p))
   | CEncodeErr d p => has_cat (comps d) && negb (encode_ok (comps d) p)
+  | CEncodeTask d opts p c out box rounded snapped =>
+      let dt := EndpointTail.with_task d opts in
+      peqb (encode_with_task d p (Some c)) out &&
+      list_eqb (fun a b => Qeq_bool (fst a) (fst b) && Qeq_bool (snd a) (snd b)) (one_hot_box dt) box &&
+      peqb (snap_det dt out) rounded &&
+      Qeq_bool (nearest (last rounded 0) opts) snapped &&
+      (* the statement of C09_task_roundtrip on the implementation's own outputs: a valid point, a cost that is one of the options *)
+      implb (admissibleb d p && existsb (Qeq_bool c) opts)
+            (in_boxb box out && peqb rounded out && Qeq_bool snapped c &&
+             match collapse dt rounded with Some q => peqb q (p ++ [c]) | None => false end)
   | CRound which d xs out =>
       let cs := comps d in
       match which with
